@@ -731,7 +731,7 @@ func rulePANIC3(c *Ctx) {
 		good := false
 		hi := w.Src(se.High)
 		for _, g := range precedingGuards(stack) {
-			b, ok := ast.Unparen(g.Cond).(*ast.BinaryExpr)
+			b, ok := gtExpr(g.Cond)
 			if !ok || (b.Op != token.GTR && b.Op != token.GEQ) {
 				continue
 			}
@@ -762,7 +762,7 @@ func rulePANIC3(c *Ctx) {
 		if !ok {
 			return false
 		}
-		b, ok := ast.Unparen(is.Cond).(*ast.BinaryExpr)
+		b, ok := gtExpr(is.Cond)
 		if !ok || (b.Op != token.GEQ && b.Op != token.GTR) {
 			return false
 		}
